@@ -1,4 +1,4 @@
-import ConcVerif.Proof.DeferredM
+import ConcVerif.Proof.DeferredN
 /-! # C06 — deferred_guarded applies each modification once, exclusively, in order
 
 Model: `Model/Deferred.lean` (`m` = the shared mutex, `flag` = `m_pendingWrites`, `qm` + `queue` =
@@ -250,19 +250,6 @@ theorem C06_no_stranding_quiescent {spur : Bool} {s : St} (h : Reachable spur s)
     obtain ⟨d, hd⟩ := hI.U.outD k hk hn
     obtain ⟨hh, hd'⟩ := hq d; rw [hd'] at hd; simp [Pc.running] at hd
 
-theorem Reachable.step {spur : Bool} {s s' : St} {t : Tid} {e : Ev} (h : Reachable spur s) (hs : step s t e = some s') :
-    Reachable spur s' := by
-  obtain ⟨es, hes⟩ := h
-  refine ⟨es ++ [(t, e)], ?_⟩
-  unfold run at hes ⊢
-  rw [runFrom_append, hes]
-  simp [runFrom_cons, hs]
-
-theorem Reachable.spur_eq {spur : Bool} {s : St} (h : Reachable spur s) : s.spur = spur := by
-  obtain ⟨es, hes⟩ := h
-  exact runFrom_rel (R := fun x y => y.spur = x.spur) (fun _ => rfl) (fun _ _ _ h1 h2 => by rw [h2, h1])
-    (fun x t e y hxy => (step_sound hxy).spur_same) hes
-
 /-- **The next call drains before granting** (hypothesis: try_lock does not fail spuriously,
 `spur = false`).  From a quiescent state in which nobody holds a handle, let one thread run alone
 (any sequence of its own steps — one call or several).  Whenever it has been granted shared access
@@ -355,6 +342,54 @@ example : ∃ s s', Reachable false s ∧ (s.queue = [7] ∧ s.flag = true ∧ s
       (3, .ucb 7), (3, .prd 0), (3, .pwr 7), (3, .uce 7 7), (3, .mul), (3, .slk), (3, .got true)] = some s' ∧
     s'.pc 3 = .idle true ∧ s'.applied = [7] ∧ s'.queue = [] ∧ s'.out 7 = some (.val 7) :=
   ⟨_, _, ⟨strandedPrefix, rfl⟩, ⟨rfl, rfl, rfl, rfl⟩, rfl, rfl, rfl, rfl, rfl⟩
+
+/-- **… under any concurrency** (same hypothesis `spur = false`).  From a quiescent state in which
+nobody holds a handle let ANY threads make ANY calls in ANY interleaving (several "next" callers at
+once, new submitters, readers).  Whenever some thread holds `m` shared (granted by `lock_shared` /
+`try_lock_shared*`, or copying in `load`) or is inside its own function on the direct path of
+`modify_*`, every task that had been submitted at the quiescent point is applied: nobody is granted
+access before the tasks accepted earlier have been applied. -/
+theorem C06_no_stranding_next_concurrent {s s' : St} {es : List (Tid × Ev)} (h : Reachable false s)
+    (hq : ∀ u, s.pc u = .idle false) (hrun : runFrom step s es = some s') {u : Tid}
+    (hg : (s'.pc u).holdsS = true ∨ ∃ k a, s'.pc u = .aIn k a) : ∀ k, s.sub k ≠ none → k ∈ s'.applied := by
+  have hq0 := C06_no_stranding_quiescent h (fun u => ⟨false, hq u⟩)
+  have hL := (inv_reachable h).L
+  have hfree := solo_free hL (t := u) (fun v _ => hq v)
+  have hD0 : Draining s.queue s := by
+    by_cases hne : s.queue = []
+    · left; intro k hk; rw [hne] at hk; cases hk
+    · right
+      refine ⟨hfree.2 (by simp [hq u, Pc.holdsS]), ?_, Or.inl ⟨hfree.1 (by simp [hq u, Pc.holdsX]), hq0.1 hne, fun _ hk => hk⟩⟩
+      intro v hv; rw [hq v] at hv; simp [Pc.atAcq] at hv
+  obtain ⟨hr', hD'⟩ := draining_run h hD0 hrun
+  have hO := hD'.granted (inv_reachable hr').L hg
+  have hmono : ∀ k, k ∈ s.applied → k ∈ s'.applied :=
+    runFrom_rel (step := step) (R := fun (x y : St) => ∀ k, k ∈ x.applied → k ∈ y.applied) (fun _ _ hk => hk)
+      (fun _ _ _ h1 h2 k hk => h2 k (h1 k hk))
+      (fun x t e y hxy k hk => by
+        obtain ⟨l, hl⟩ := (step_sound hxy).applied_mono
+        rw [hl]; exact List.mem_append_left _ hk) hrun
+  intro k hk
+  rcases hq0.2.2.1 k hk with h1 | h1
+  · exact hmono k h1
+  · exact hO k h1
+
+/-- Why the previous theorem starts from a quiescent state (no call in flight): the drain is best effort.  Accepted run
+(no spurious failure involved): reader 1 holds a handle; `lock_shared` of thread 2 is in flight and
+has already seen `flag = false`; task 7 is queued and its submitter returns; reader 1 releases — now
+all submitters have returned and no handle is held.  Thread 4 calls `lock_shared`; thread 2 acquires
+(without draining), so the try-lock of thread 4 fails and it is granted the handle too, with task 7
+still queued.  Task 7 is not lost (the flag stays up: the next successful drain applies it). -/
+theorem C06_no_stranding_inflight_caveat :
+    ∃ s, run false [(1, .callSh .block), (1, .fld false), (1, .slk), (1, .got true),
+        (2, .callSh .block), (2, .fld false),
+        (3, .callMod 7 false), (3, .mtl false), (3, .qlk), (3, .qul), (3, .fst true), (3, .ret),
+        (1, .sul),
+        (4, .callSh .block), (4, .fld true),
+        (2, .slk), (2, .got true),
+        (4, .mtl false), (4, .slk), (4, .got true)] = some s ∧
+      s.pc 4 = .idle true ∧ s.queue = [7] ∧ s.applied = [] ∧ s.done = [7] ∧ s.flag = true :=
+  ⟨_, rfl, rfl, rfl, rfl, rfl, rfl⟩
 
 /-! ## futures -/
 
